@@ -374,6 +374,8 @@ def oracle(sc, r, want=("C07", "C08", "C09")):
                                     "idle after the scan %d, opened in that pass %d, min(min_idle, max_size) %d" % (idle, pushed, target)))
                         break
     live = [e for e in log if e[1] == "C" and e[2] == "census_live"]
+    if live and live[0][3].get("tasks_still_alive", 0) > 0:
+        bad.append(("C09", "a task spawned by the transport (its background worker) is still alive 3 s after the last handle was dropped (runtime still alive)", json.dumps(live[0][3])))
     if live and not live[0][3]["all_closed"]:
         # a server that never answers QUIT keeps its socket until the read timeout: not the case in these scenarios
         bad.append(("C09", "sockets still open 2.5 s after the last handle to the transport was dropped (runtime still alive)", json.dumps(live[0][3])))
@@ -541,7 +543,14 @@ def gen_slow_peer(rng, kind, n):
     whole send can fire, and what it leaves behind is re-used by the next sends."""
     out = []
     for k in range(n):
-        if k % 2 == 0:
+        if k % 3 == 2:
+            # (2) messages far larger than the socket buffers to a peer that starts reading the content late: every octet must arrive
+            sc = base(rng, kind, {"max": 2, "min_idle": 0, "idle_ms": 60000}, timeout_ms=8000, probe_delay_us=0, reply_delay_us=0)
+            sc["body_read_delay_ms"] = 250
+            sc["senders"] = [[dict(send_op("b%d-0" % s, rng), size=0), dict(send_op("b%d-1" % s, rng), size=6000000, nrcpt=1), dict(send_op("b%d-2" % s, rng), size=300)] for s in range(2)]
+            sc["after"] = [{"op": "debug"}]
+            sc["family"] = "large-to-late-reader"
+        elif k % 3 == 0:
             sc = base(rng, kind, {"max": 1, "min_idle": 0, "idle_ms": 60000}, timeout_ms=6000, probe_delay_us=0, reply_delay_us=0)
             sc["faults"] = [{"conn": None, "cmd": "BODY", "nth": 1, "act": "stall", "ms": 5200}]
             sc["senders"] = [[send_op("w0", rng), send_op("w1", rng)]]
@@ -650,7 +659,12 @@ def gen_shutdown(rng, kind, n):
             sc["probe_delay_us"] = 0
             sc["after"] = [{"op": "sleep", "ms": rng.choice([5, 20])}, {"op": "shutdown"}, send_op("late", rng), {"op": "shutdown"}, {"op": "debug"}]
         else:
-            # no shutdown at all: drop the transport with idle connections and a sleeping worker
+            # no shutdown at all: drop the transport with idle connections and a sleeping worker - or with nothing idle at all: never used,
+            # pooling off, everything expired
+            if k % 8 == 3:
+                sc["senders"] = []
+            elif k % 8 == 7:
+                pool["max"] = 0; pool["min_idle"] = 0
             sc["after"] = [{"op": "debug"}, {"op": "sleep", "ms": rng.choice([0, 5, 60])}]
         sc["family"] = "shutdown-%d" % variant
         out.append(sc)
